@@ -323,7 +323,11 @@ func (n *Node) signTx(r *rand.Rand, t Tx) ([]byte, error) {
 
 // ExecBlock runs one block through the real application.
 func (n *Node) ExecBlock(b Block, seqBump map[int]uint64) (out BlockOut) {
-	if b.Restart {
+	if b.Admin != "" {
+		// the operator restarts the node with another admin configuration (environment override added or dropped)
+		n.G.GovAdmin = b.Admin == "gov"
+		n.Restart()
+	} else if b.Restart {
 		n.Restart()
 	}
 	h := n.Height + 1
